@@ -986,12 +986,12 @@ template <class T> static void tri_check (vp::Ctx& c, const char* tn, const Vec3
     if (!hit) return;
     quad up = eps * upos;
     for (int i = 0; i < 3; ++i)
-        QG_CHK (c, (farform ? "tri-intersect/point/far" : "tri-intersect/point"), qabs ((quad) pt[i] - X[i]), up, 2, tn << " pt[" << i << "] = " << pt[i] << " exact " << qstr (X[i]) << " n.dir=" << (double) nd); // measured worst 0.42 units
+        QG_CHK (c, (farform ? "tri-intersect/point/far" : "tri-intersect/point"), qabs ((quad) pt[i] - X[i]), up, 2, tn << " pt[" << i << "] = " << pt[i] << " exact " << qstr (X[i]) << " n.dir=" << (double) nd); // measured worst 0.42 units (far form: 0.45)
     for (int i = 0; i < 3; ++i)
-        QG_CHK (c, (farform ? "tri-intersect/barycentric/far" : "tri-intersect/barycentric"), qabs ((quad) bary[i] - bx[i]), eps * kap, 2, tn << " barycentric[" << i << "] = " << bary[i] << " exact " << qstr (bx[i]) << " cond=" << (double) kap); // measured worst 0.35 units
+        QG_CHK (c, (farform ? "tri-intersect/barycentric/far" : "tri-intersect/barycentric"), qabs ((quad) bary[i] - bx[i]), eps * kap, 2, tn << " barycentric[" << i << "] = " << bary[i] << " exact " << qstr (bx[i]) << " cond=" << (double) kap); // measured worst 0.35 units (far form: 0.36)
     Q3 rep = A * (quad) bary.x + B * (quad) bary.y + Cq * (quad) bary.z;
     for (int i = 0; i < 3; ++i)
-        QG_CHK (c, (farform ? "tri-intersect/barycentric-reproduces-pt/far" : "tri-intersect/barycentric-reproduces-pt"), qabs (rep[i] - (quad) pt[i]), eps * kap * Lmax, 2, tn << " v0*b.x+v1*b.y+v2*b.z [" << i << "] = " << qstr (rep[i]) << " but pt = " << pt[i]); // measured worst 0.25 units
+        QG_CHK (c, (farform ? "tri-intersect/barycentric-reproduces-pt/far" : "tri-intersect/barycentric-reproduces-pt"), qabs (rep[i] - (quad) pt[i]), eps * kap * Lmax, 2, tn << " v0*b.x+v1*b.y+v2*b.z [" << i << "] = " << qstr (rep[i]) << " but pt = " << pt[i]); // measured worst 0.25 units (far form: 0.30)
     bool fx = dot (D, Ndoc) < 0;
     c.label (fx ? TR_FRONT : TR_BACK);
     VP_REQUIRE (c, front == fx, farform ? "tri-intersect/front/far" : "tri-intersect/front", tn << " front = " << front << " but dir.((v2-v1)x(v1-v0)) = " << qstr (dot (D, Ndoc)));
@@ -1855,7 +1855,7 @@ template <class Vec, class T, int N> static void far_vertex_case (vp::Ctx& c, co
     }
     VP_REQUIRE (c, which >= 0, "closestVertex/not-a-vertex", tn << " closestVertex returned " << vstr (cv, N) << " which is none of the three vertices");
     int  ntie = 0, nclose = 0;
-    quad K    = (quad) (2 * (N + 2)); // analysis (N+2) eps; measured worst excess 1.0 (float) / 0.99 (double) eps [see MEAS below]
+    quad K    = (quad) (2 * (N + 2)); // analysis (N+2) eps; measured worst excess 1.7 eps (float and double, 1.8e6 cases each, on the near-tie class)
     for (int k = 0; k < 3; ++k)
     {
         if (d2[k] == dmin) ++ntie;
@@ -1956,7 +1956,7 @@ template <class T> static void far_line_case (vp::Ctx& c, const char* tn)
     {
         Q3 DX = unit (q3 (p1) - q3 (p0));
         for (int i = 0; i < 3; ++i)
-            QG_CHK (c, "line-set/dir/far", qabs (D[i] - DX[i]), eps, 6, tn << " dir[" << i << "] = " << l.dir[i] << " exact " << qstr (DX[i]) << " for p0=" << vs (p0) << " p1=" << vs (p1)); // measured worst 1.1 units
+            QG_CHK (c, "line-set/dir/far", qabs (D[i] - DX[i]), eps, 6, tn << " dir[" << i << "] = " << l.dir[i] << " exact " << qstr (DX[i]) << " for p0=" << vs (p0) << " p1=" << vs (p1)); // measured worst 1.2 units
     }
     {
         Q3   Q  = q3 (q);
@@ -1966,12 +1966,12 @@ template <class T> static void far_line_case (vp::Ctx& c, const char* tn)
         V    cp = l.closestPointTo (q);
         Q3   C  = q3 (cp);
         for (int i = 0; i < 3; ++i)
-            QG_CHK (c, "line-closestPointTo-point/far-offset", qabs (C[i] - CX[i]), eps * S, 8, tn << " closestPointTo(" << vs (q) << ")[" << i << "] = " << cp[i] << " exact " << qstr (CX[i]) << " line " << vs (l.pos) << "+t" << vs (l.dir)); // measured worst 0.75 units
-        QG_CHK (c, "line-closestPointTo-point/on-line/far-offset", len (cross (C - P, D)) / len (D), eps * S, 4, tn << " closestPointTo(" << vs (q) << ") = " << vs (cp) << " is off the line"); // measured worst 0.37 units
-        QG_CHK (c, "line-closestPointTo-point/perp/far-offset", qabs (dot (Q - C, D)), eps * S, 8, tn << " (q - closestPointTo(q)).dir != 0 for q=" << vs (q) << " cp=" << vs (cp)); // measured worst 0.75 units
+            QG_CHK (c, "line-closestPointTo-point/far-offset", qabs (C[i] - CX[i]), eps * S, 8, tn << " closestPointTo(" << vs (q) << ")[" << i << "] = " << cp[i] << " exact " << qstr (CX[i]) << " line " << vs (l.pos) << "+t" << vs (l.dir)); // measured worst 1.2 units
+        QG_CHK (c, "line-closestPointTo-point/on-line/far-offset", len (cross (C - P, D)) / len (D), eps * S, 2, tn << " closestPointTo(" << vs (q) << ") = " << vs (cp) << " is off the line"); // measured worst 0.36 units
+        QG_CHK (c, "line-closestPointTo-point/perp/far-offset", qabs (dot (Q - C, D)), eps * S, 8, tn << " (q - closestPointTo(q)).dir != 0 for q=" << vs (q) << " cp=" << vs (cp)); // measured worst 1.3 units
         T    dist = l.distanceTo (q);
         quad dx   = len (Q - CX);
-        QG_CHK (c, "line-distanceTo-point/far-offset", qabs ((quad) dist - dx), eps * S, 8, tn << " distanceTo(" << vs (q) << ") = " << dist << " exact " << qstr (dx) << " line " << vs (l.pos) << "+t" << vs (l.dir)); // measured worst 0.57 units
+        QG_CHK (c, "line-distanceTo-point/far-offset", qabs ((quad) dist - dx), eps * S, 8, tn << " distanceTo(" << vs (q) << ") = " << dist << " exact " << qstr (dx) << " line " << vs (l.pos) << "+t" << vs (l.dir)); // measured worst 1.3 units
         VP_REQUIRE (c, dist >= 0, "line-distanceTo-point/negative", tn << " distanceTo(point) = " << dist);
     }
     // ---- closestVertex (v0, v1, v2, line): same statement and unit as section 7, here with the triangle next to pos
@@ -1999,7 +1999,7 @@ template <class T> static void far_line_case (vp::Ctx& c, const char* tn)
             if (dk[k] <= (dmin + 4 * E) * (1 + 8 * eps)) ++nclose;
         if (nclose == 1) c.label (FL_CV_FORCED);
         QG_MEAS ("closestVertex-line/far-offset-excess", (dk[which] - dmin) / (E + (quad) 1e-300));
-        // analysis as in section 7 (~3 E); measured worst excess 0.45 E
+        // analysis as in section 7 (~3 E); measured worst excess 0.64 E
         VP_REQUIRE (c, dk[which] <= (dmin + 4 * E) * (1 + 8 * eps), "closestVertex-line/not-closest-far-offset", tn << " closestVertex(line) = vertex " << which << " at distance " << qstr (dk[which]) << " from the line, but the vertex distances are " << qstr (dk[0]) << " " << qstr (dk[1]) << " " << qstr (dk[2]) << " (resolvable to " << qstr (4 * E) << ")");
     }
     // ---- rotatePoint
@@ -2039,10 +2039,10 @@ template <class T> static void far_line_case (vp::Ctx& c, const char* tn)
         quad S  = len (Pq) + len (P) + len (rel) + (quad) 1e-300;
         V    r  = rotatePoint (p, l, ang);
         for (int i = 0; i < 3; ++i)
-            QG_CHK (c, "rotatePoint/far-offset", qabs ((quad) r[i] - RX[i]), eps * S, 12, tn << " rotatePoint[" << i << "] = " << r[i] << " exact " << qstr (RX[i])); // measured worst 1.5 units
+            QG_CHK (c, "rotatePoint/far-offset", qabs ((quad) r[i] - RX[i]), eps * S, 12, tn << " rotatePoint[" << i << "] = " << r[i] << " exact " << qstr (RX[i])); // measured worst 2.3 units
         Q3 rq = q3 (r) - P;
-        QG_CHK (c, "rotatePoint/axial-component/far-offset", qabs (dot (rq, Du) - dot (rel, Du)), eps * S, 12, tn << " component along the line changes: " << qstr (dot (rq, Du)) << " vs " << qstr (dot (rel, Du))); // measured worst 1.6 units
-        QG_CHK (c, "rotatePoint/distance-to-line/far-offset", qabs (len (cross (rq, Du)) - len (pe)), eps * S, 8, tn << " distance to the line changes: " << qstr (len (cross (rq, Du))) << " vs " << qstr (len (pe))); // measured worst 1.1 units
+        QG_CHK (c, "rotatePoint/axial-component/far-offset", qabs (dot (rq, Du) - dot (rel, Du)), eps * S, 12, tn << " component along the line changes: " << qstr (dot (rq, Du)) << " vs " << qstr (dot (rel, Du))); // measured worst 2.6 units
+        QG_CHK (c, "rotatePoint/distance-to-line/far-offset", qabs (len (cross (rq, Du)) - len (pe)), eps * S, 8, tn << " distance to the line changes: " << qstr (len (cross (rq, Du))) << " vs " << qstr (len (pe))); // measured worst 0.99 units
     }
 }
 #define C15_FL_LABELS C15_FO_LABELS, "axis_aligned_dir", "q_is_pos", "q_on_line", "q_2^-j_off_line", "q_generic", "closestVertex_answer_forced", "rotate_p_is_pos", "rotate_p_2^-j_off_axis", "rotate_p_generic", "quarter_turns"
@@ -2243,14 +2243,14 @@ template <class T> static void far_lines_case (vp::Ctx& c, const char* tn)
         Q3 a_ = q3 (a), b_ = q3 (b), e = a_ - b_;
         for (int i = 0; i < 3; ++i)
         {
-            QG_CHK (c, "closestPoints/point1/far-offset", qabs (a_[i] - X1[i]), unitP, 8, tn << " point1[" << i << "] = " << a[i] << " exact " << qstr (X1[i]) << " sin^2=" << (double) s2); // measured worst 1.6 units
-            QG_CHK (c, "closestPoints/point2/far-offset", qabs (b_[i] - X2[i]), unitP, 8, tn << " point2[" << i << "] = " << b[i] << " exact " << qstr (X2[i]) << " sin^2=" << (double) s2); // measured worst 1.6 units
+            QG_CHK (c, "closestPoints/point1/far-offset", qabs (a_[i] - X1[i]), unitP, 8, tn << " point1[" << i << "] = " << a[i] << " exact " << qstr (X1[i]) << " sin^2=" << (double) s2); // measured worst 1.7 units
+            QG_CHK (c, "closestPoints/point2/far-offset", qabs (b_[i] - X2[i]), unitP, 8, tn << " point2[" << i << "] = " << b[i] << " exact " << qstr (X2[i]) << " sin^2=" << (double) s2); // measured worst 1.7 units
         }
-        QG_CHK (c, "closestPoints/point1-on-line1/far-offset", len (cross (a_ - P1, D1)) / len (D1), eps * (len (P1) + len (a_ - P1)) + (quad) 1e-300, 4, tn << " point1 " << vs (a) << " is off line1"); // measured worst 0.7 units
-        QG_CHK (c, "closestPoints/point2-on-line2/far-offset", len (cross (b_ - P2, D2)) / len (D2), eps * (len (P2) + len (b_ - P2)) + (quad) 1e-300, 4, tn << " point2 " << vs (b) << " is off line2"); // measured worst 0.7 units
-        QG_CHK (c, "closestPoints/perp-dir1/far-offset", qabs (dot (e, D1)), unitE, 8, tn << " (point1-point2).dir1 = " << qstr (dot (e, D1)) << " sin^2=" << (double) s2);
-        QG_CHK (c, "closestPoints/perp-dir2/far-offset", qabs (dot (e, D2)), unitE, 8, tn << " (point1-point2).dir2 = " << qstr (dot (e, D2)) << " sin^2=" << (double) s2);
-        QG_CHK (c, "closestPoints/distance/far-offset", qabs (len (e) - distx), unitE, 8, tn << " |point1-point2| = " << qstr (len (e)) << " true distance " << qstr (distx));
+        QG_CHK (c, "closestPoints/point1-on-line1/far-offset", len (cross (a_ - P1, D1)) / len (D1), eps * (len (P1) + len (a_ - P1)) + (quad) 1e-300, 4, tn << " point1 " << vs (a) << " is off line1"); // measured worst 0.69 units
+        QG_CHK (c, "closestPoints/point2-on-line2/far-offset", len (cross (b_ - P2, D2)) / len (D2), eps * (len (P2) + len (b_ - P2)) + (quad) 1e-300, 4, tn << " point2 " << vs (b) << " is off line2"); // measured worst 0.78 units
+        QG_CHK (c, "closestPoints/perp-dir1/far-offset", qabs (dot (e, D1)), unitE, 8, tn << " (point1-point2).dir1 = " << qstr (dot (e, D1)) << " sin^2=" << (double) s2); // measured worst 1.2 units
+        QG_CHK (c, "closestPoints/perp-dir2/far-offset", qabs (dot (e, D2)), unitE, 8, tn << " (point1-point2).dir2 = " << qstr (dot (e, D2)) << " sin^2=" << (double) s2); // measured worst 1.2 units
+        QG_CHK (c, "closestPoints/distance/far-offset", qabs (len (e) - distx), unitE, 8, tn << " |point1-point2| = " << qstr (len (e)) << " true distance " << qstr (distx)); // measured worst 1.4 units
     }
     else if (ok)
         VP_REQUIRE (c, fin3 (a) && fin3 (b), "closestPoints/nonfinite", tn << " closestPoints returned true with non-finite points " << vs (a) << " " << vs (b) << " sin^2=" << (double) s2);
@@ -2259,10 +2259,10 @@ template <class T> static void far_lines_case (vp::Ctx& c, const char* tn)
         V cp = l1.closestPointTo (l2);
         VP_REQUIRE (c, fin3 (cp), "line-closestPointTo-line/nonfinite", tn << " closestPointTo(line) = " << vs (cp) << " sin^2=" << (double) s2);
         Q3 cq = q3 (cp);
-        QG_CHK (c, "line-closestPointTo-line/on-line/far-offset", len (cross (cq - P1, D1)) / len (D1), eps * (len (P1) + len (cq - P1)) + (quad) 1e-300, 4, tn << " closestPointTo(line) = " << vs (cp) << " is off the line");
+        QG_CHK (c, "line-closestPointTo-line/on-line/far-offset", len (cross (cq - P1, D1)) / len (D1), eps * (len (P1) + len (cq - P1)) + (quad) 1e-300, 4, tn << " closestPointTo(line) = " << vs (cp) << " is off the line"); // measured worst 0.74 units
         if (strong)
             for (int i = 0; i < 3; ++i)
-                QG_CHK (c, "line-closestPointTo-line/far-offset", qabs (cq[i] - X1[i]), unitP, 8, tn << " closestPointTo(line)[" << i << "] = " << cp[i] << " exact " << qstr (X1[i]) << " sin^2=" << (double) s2);
+                QG_CHK (c, "line-closestPointTo-line/far-offset", qabs (cq[i] - X1[i]), unitP, 8, tn << " closestPointTo(line)[" << i << "] = " << cp[i] << " exact " << qstr (X1[i]) << " sin^2=" << (double) s2); // measured worst 1.7 units
     }
     // ---- distanceTo(line)
     {
@@ -2275,7 +2275,7 @@ template <class T> static void far_lines_case (vp::Ctx& c, const char* tn)
             c.label (FLL_DIST_CHECKED);
             if (!exact_parallel && !strong) c.label (FLL_DIST_NEARPAR_CHECKED);
             quad unitD = exact_parallel ? eps * (lW + lP) : eps * lW / sn;
-            QG_CHK (c, (exact_parallel ? "line-distanceTo-line/exactly-parallel/far-offset" : "line-distanceTo-line/far-offset"), qabs ((quad) got - distx), unitD + (quad) 1e-300, 8, tn << " distanceTo(line) = " << got << " exact " << qstr (distx) << " sin=" << (double) sn << " |pos1-pos2|=" << (double) lW);
+            QG_CHK (c, (exact_parallel ? "line-distanceTo-line/exactly-parallel/far-offset" : "line-distanceTo-line/far-offset"), qabs ((quad) got - distx), unitD + (quad) 1e-300, 8, tn << " distanceTo(line) = " << got << " exact " << qstr (distx) << " sin=" << (double) sn << " |pos1-pos2|=" << (double) lW); // measured worst 1.7 units (non-parallel, down to sin = 64 eps), 1.2 units (exactly parallel)
         }
     }
 }
@@ -2374,15 +2374,15 @@ template <class T> static void far_plane_case (vp::Ctx& c, const char* tn)
         if (sn < (quad) 0.05) c.label (FP_SLIVER);
         Q3 NX = unit (N), Ns = q3 (P.normal);
         for (int i = 0; i < 3; ++i)
-            QG_CHK (c, "plane-set3/normal/far-offset", qabs (Ns[i] - NX[i]), eps * condN, 6, tn << " normal[" << i << "] = " << P.normal[i] << " exact " << qstr (NX[i]) << " for (p2-p1)x(p3-p1), sin=" << (double) sn);
+            QG_CHK (c, "plane-set3/normal/far-offset", qabs (Ns[i] - NX[i]), eps * condN, 6, tn << " normal[" << i << "] = " << P.normal[i] << " exact " << qstr (NX[i]) << " for (p2-p1)x(p3-p1), sin=" << (double) sn); // measured worst 0.99 units
         defpt[0] = va, defpt[1] = vb, defpt[2] = vc;
         ndef     = 3;
         for (int k = 0; k < 3; ++k)
         {
             Q3   X     = q3 (defpt[k]);
             quad unit_ = eps * (adot (Ns, X) + qabs ((quad) P.distance) + (len (F1) + len (F2)) * condN);
-            QG_CHK (c, "plane-set3/defining-point-distance/far-offset", qabs (dot (Ns, X) - (quad) P.distance), unit_, 4, tn << " defining point " << k << " " << vs (defpt[k]) << " is at distance " << qstr (dot (Ns, X) - (quad) P.distance) << " from plane " << vs (P.normal) << "," << P.distance);
-            QG_CHK (c, "plane-set3/distanceTo-defining-point/far-offset", qabs ((quad) P.distanceTo (defpt[k])), unit_, 4, tn << " distanceTo(defining point " << k << ") = " << P.distanceTo (defpt[k]));
+            QG_CHK (c, "plane-set3/defining-point-distance/far-offset", qabs (dot (Ns, X) - (quad) P.distance), unit_, 4, tn << " defining point " << k << " " << vs (defpt[k]) << " is at distance " << qstr (dot (Ns, X) - (quad) P.distance) << " from plane " << vs (P.normal) << "," << P.distance); // measured worst 0.70 units
+            QG_CHK (c, "plane-set3/distanceTo-defining-point/far-offset", qabs ((quad) P.distanceTo (defpt[k])), unit_, 4, tn << " distanceTo(defining point " << k << ") = " << P.distanceTo (defpt[k])); // measured worst 1.0 units
         }
     }
     else
@@ -2398,10 +2398,10 @@ template <class T> static void far_plane_case (vp::Ctx& c, const char* tn)
         c.label (FP_POINT_NORMAL);
         Q3 NX = unit (q3 (nn)), Ns = q3 (P.normal);
         for (int i = 0; i < 3; ++i)
-            QG_CHK (c, "plane-set-pn/normal/far-offset", qabs (Ns[i] - NX[i]), eps, 6, tn << " normal[" << i << "] = " << P.normal[i] << " exact " << qstr (NX[i]));
+            QG_CHK (c, "plane-set-pn/normal/far-offset", qabs (Ns[i] - NX[i]), eps, 6, tn << " normal[" << i << "] = " << P.normal[i] << " exact " << qstr (NX[i])); // measured worst 1.1 units
         quad unit_ = eps * adot (Ns, q3 (pt)) + (quad) 1e-300;
-        QG_CHK (c, "plane-set-pn/distance/far-offset", qabs ((quad) P.distance - dot (Ns, q3 (pt))), unit_, 6, tn << " distance = " << P.distance << " exact normal.point " << qstr (dot (Ns, q3 (pt))));
-        QG_CHK (c, "plane-set-pn/distanceTo-defining-point/far-offset", qabs ((quad) P.distanceTo (pt)), unit_, 4, tn << " distanceTo(defining point) = " << P.distanceTo (pt));
+        QG_CHK (c, "plane-set-pn/distance/far-offset", qabs ((quad) P.distance - dot (Ns, q3 (pt))), unit_, 6, tn << " distance = " << P.distance << " exact normal.point " << qstr (dot (Ns, q3 (pt)))); // measured worst 1.5 units
+        QG_CHK (c, "plane-set-pn/distanceTo-defining-point/far-offset", qabs ((quad) P.distanceTo (pt)), unit_, 4, tn << " distanceTo(defining point) = " << P.distanceTo (pt)); // measured worst 0 units
         defpt[0] = pt;
         ndef     = 1;
     }
@@ -2437,13 +2437,13 @@ template <class T> static void far_plane_case (vp::Ctx& c, const char* tn)
         quad sd = dot (N, Q) - d;
         quad Sq = adot (N, Q) + qabs (d) + (quad) 1e-300;
         T    dq = P.distanceTo (q);
-        QG_CHK (c, "plane-distanceTo/far-offset", qabs ((quad) dq - sd), eps * Sq, 8, tn << " distanceTo(" << vs (q) << ") = " << dq << " exact " << qstr (sd));
+        QG_CHK (c, "plane-distanceTo/far-offset", qabs ((quad) dq - sd), eps * Sq, 8, tn << " distanceTo(" << vs (q) << ") = " << dq << " exact " << qstr (sd)); // measured worst 1.2 units
         V    r  = P.reflectPoint (q);
         Q3   RX = Q - N * (2 * sd);
         quad Sr = len (Q) + qabs (d) + qabs (sd) + (quad) 1e-300;
         for (int i = 0; i < 3; ++i)
-            QG_CHK (c, "plane-reflectPoint/far-offset", qabs ((quad) r[i] - RX[i]), eps * Sr, 8, tn << " reflectPoint(" << vs (q) << ")[" << i << "] = " << r[i] << " exact " << qstr (RX[i]));
-        QG_CHK (c, "plane-reflectPoint/negates-distance/far-offset", qabs ((quad) P.distanceTo (r) + (quad) dq), eps * Sr, 16, tn << " distanceTo(reflectPoint(q)) = " << P.distanceTo (r) << " but distanceTo(q) = " << dq);
+            QG_CHK (c, "plane-reflectPoint/far-offset", qabs ((quad) r[i] - RX[i]), eps * Sr, 8, tn << " reflectPoint(" << vs (q) << ")[" << i << "] = " << r[i] << " exact " << qstr (RX[i])); // measured worst 1.3 units
+        QG_CHK (c, "plane-reflectPoint/negates-distance/far-offset", qabs ((quad) P.distanceTo (r) + (quad) dq), eps * Sr, 16, tn << " distanceTo(reflectPoint(q)) = " << P.distanceTo (r) << " but distanceTo(q) = " << dq); // measured worst 2.7 units
     }
     // ---- line / plane intersection
     {
@@ -2510,13 +2510,13 @@ template <class T> static void far_plane_case (vp::Ctx& c, const char* tn)
             {
                 quad tx = (d - dot (N, LP)) / nd;
                 quad ut = eps * ((adot (N, LP) + qabs (d)) / qabs (nd) + qabs (tx) * and_ / qabs (nd)) + (quad) 1e-300;
-                QG_CHK (c, "plane-intersectT/far-offset", qabs ((quad) t - tx), ut, 6, tn << " intersectT = " << t << " exact " << qstr (tx) << " normal.dir=" << (double) nd);
+                QG_CHK (c, "plane-intersectT/far-offset", qabs ((quad) t - tx), ut, 6, tn << " intersectT = " << t << " exact " << qstr (tx) << " normal.dir=" << (double) nd); // measured worst 0.90 units
                 Q3   IX = LP + LD * tx;
                 quad up = ut + eps * (len (LP) + qabs (tx));
                 for (int i = 0; i < 3; ++i)
-                    QG_CHK (c, "plane-intersect/point/far-offset", qabs ((quad) ip[i] - IX[i]), up, 4, tn << " intersect point[" << i << "] = " << ip[i] << " exact " << qstr (IX[i]));
-                QG_CHK (c, "plane-intersect/on-plane/far-offset", qabs (dot (N, q3 (ip)) - d), up, 4, tn << " intersect point " << vs (ip) << " is at distance " << qstr (dot (N, q3 (ip)) - d) << " from the plane");
-                QG_CHK (c, "plane-intersect/on-line/far-offset", len (cross (q3 (ip) - LP, LD)) / len (LD), eps * (len (LP) + len (q3 (ip) - LP)) + (quad) 1e-300, 4, tn << " intersect point " << vs (ip) << " is off the line");
+                    QG_CHK (c, "plane-intersect/point/far-offset", qabs ((quad) ip[i] - IX[i]), up, 4, tn << " intersect point[" << i << "] = " << ip[i] << " exact " << qstr (IX[i])); // measured worst 0.64 units
+                QG_CHK (c, "plane-intersect/on-plane/far-offset", qabs (dot (N, q3 (ip)) - d), up, 4, tn << " intersect point " << vs (ip) << " is at distance " << qstr (dot (N, q3 (ip)) - d) << " from the plane"); // measured worst 0.55 units
+                QG_CHK (c, "plane-intersect/on-line/far-offset", len (cross (q3 (ip) - LP, LD)) / len (LD), eps * (len (LP) + len (q3 (ip) - LP)) + (quad) 1e-300, 4, tn << " intersect point " << vs (ip) << " is off the line"); // measured worst 0.79 units
             }
         }
     }
@@ -2978,21 +2978,21 @@ template <class Vec, class T, int N> static void vec_near_case (vp::Ctx& c, cons
     for (int i = 0; i < N; ++i)
     {
         quad px = S[i] * st / s2;
-        QG_CHK (c, "project/near-special", qabs ((quad) pr[i] - px), ut, 16, tn << " project(s,t)[" << i << "] = " << pr[i] << " exact " << qstr (px) << " s=" << vstr (ss, N) << " t=" << vstr (tv, N));
-        QG_CHK (c, "orthogonal/near-special", qabs ((quad) og[i] - (Tq[i] - px)), ut, 16, tn << " orthogonal(s,t)[" << i << "] = " << og[i] << " exact " << qstr (Tq[i] - px) << " s=" << vstr (ss, N) << " t=" << vstr (tv, N));
-        QG_CHK (c, "project+orthogonal/near-special", qabs ((quad) pr[i] + (quad) og[i] - Tq[i]), ut, 2, tn << " project+orthogonal != t in slot " << i);
+        QG_CHK (c, "project/near-special", qabs ((quad) pr[i] - px), ut, 16, tn << " project(s,t)[" << i << "] = " << pr[i] << " exact " << qstr (px) << " s=" << vstr (ss, N) << " t=" << vstr (tv, N)); // measured worst 2.8 units
+        QG_CHK (c, "orthogonal/near-special", qabs ((quad) og[i] - (Tq[i] - px)), ut, 16, tn << " orthogonal(s,t)[" << i << "] = " << og[i] << " exact " << qstr (Tq[i] - px) << " s=" << vstr (ss, N) << " t=" << vstr (tv, N)); // measured worst 2.8 units
+        QG_CHK (c, "project+orthogonal/near-special", qabs ((quad) pr[i] + (quad) og[i] - Tq[i]), ut, 2, tn << " project+orthogonal != t in slot " << i); // measured worst 0.49 units
         dots += (quad) og[i] * S[i] / ls;
     }
-    QG_CHK (c, "orthogonal/perp/near-special", qabs (dots), ut, 16, tn << " orthogonal(s,t).s/|s| = " << qstr (dots));
+    QG_CHK (c, "orthogonal/perp/near-special", qabs (dots), ut, 16, tn << " orthogonal(s,t).s/|s| = " << qstr (dots)); // measured worst 3.2 units
     Vec  rf = reflect (tv, ss);
     quad l2 = 0;
     for (int i = 0; i < N; ++i)
     {
         quad rx = 2 * S[i] * st / s2 - Tq[i];
-        QG_CHK (c, "reflect/near-special", qabs ((quad) rf[i] - rx), ut, 32, tn << " reflect(t,s)[" << i << "] = " << rf[i] << " exact " << qstr (rx) << " s=" << vstr (ss, N) << " t=" << vstr (tv, N));
+        QG_CHK (c, "reflect/near-special", qabs ((quad) rf[i] - rx), ut, 32, tn << " reflect(t,s)[" << i << "] = " << rf[i] << " exact " << qstr (rx) << " s=" << vstr (ss, N) << " t=" << vstr (tv, N)); // measured worst 5.6 units
         l2 += (quad) rf[i] * (quad) rf[i];
     }
-    QG_CHK (c, "reflect/length/near-special", qabs (sqrtq (l2) - lt), ut, 32, tn << " |reflect(t,s)| = " << qstr (sqrtq (l2)) << " |t| = " << qstr (lt));
+    QG_CHK (c, "reflect/length/near-special", qabs (sqrtq (l2) - lt), ut, 32, tn << " |reflect(t,s)| = " << qstr (sqrtq (l2)) << " |t| = " << qstr (lt)); // measured worst 6.4 units
 }
 template <class T> static void vec_near_dispatch (vp::Ctx& c)
 {
